@@ -26,7 +26,9 @@ RULE = (
     "(emitted bytes or ValueError) must equal the original's. Non-trivial = variant differs in >=2 layout dimensions and has a "
     "comment on a block header or at a column different from its block. (a) programs seeded with supported and unsupported "
     "statement kinds at depth 0-3; each logical line is classified through the REDUINO_VERIF hook; non-trivial = contains a line "
-    "outside the translated set at depth >= 1. distinct = distinct source text."
+    "outside the translated set at depth >= 1. (c) control-flow skeletons: nested if/elif/else, for, fuelled while and a helper body in which every block either "
+    "writes a unique marker or is empty on the device (pass / print / comment / docstring), conditions on tape-driven values; firmware markers must equal CPython's "
+    "(mock core differential); non-trivial = an empty arm followed by a live arm in the same chain. distinct = distinct source text."
 )
 ASSUMPTIONS = [
     "line continuations (backslash, open brackets across lines) and triple-quoted strings are outside the documented style and not generated for (b)",
@@ -257,11 +259,99 @@ def _stmt_kind(line):
     return "unparsable:" + (s.split()[0] if s.split() else "")
 
 
+# ------------------------------------------------------------------ (c) control-flow skeletons
+SK_HEAD = ("from Reduino.Communication import SerialMonitor\nfrom Reduino.Core import analog_read\nfrom Reduino.Utils import sleep\nmon = SerialMonitor(9600)\n")
+EMPTY_ARMS = [["pass"], ["print('host only')"], ["# nothing to do here", "pass"], ["pass", "# dead band"], ['"doc"'], ["print(1)", "pass"]]
+
+
+class Skel:
+    """nested if/elif/else, for, while and helper bodies in which every block either writes a unique marker or is empty on the device
+    (pass / print / comment / docstring); conditions read tape-driven values, so which markers appear is decided at run time."""
+
+    def __init__(self, draw):
+        self.draw = draw
+        self.k = 0
+        self.empty_then_live = False
+        self.n_empty = 0
+
+    def marker(self):
+        self.k += 1
+        return f"mon.write('@{self.k}')"
+
+    def cond(self):
+        return f"a{self.draw(st.integers(0, 2))} {self.draw(st.sampled_from(['>', '<', '>=']))} {self.draw(st.sampled_from([100, 300, 500, 700, 900]))}"
+
+    def arm(self, depth, in_loop, allow_empty=True):
+        if allow_empty and self.draw(st.integers(0, 3)) == 0:
+            self.n_empty += 1
+            return list(self.draw(st.sampled_from(EMPTY_ARMS))), True
+        return self.block(depth + 1, in_loop), False
+
+    def block(self, depth, in_loop):
+        out = []
+        for _ in range(self.draw(st.integers(1, 3 if depth < 2 else 2))):
+            kind = self.draw(st.sampled_from(["m", "m", "if", "if", "for", "while"] if depth < 3 else ["m"]))
+            if kind == "m":
+                out.append(self.marker())
+            elif kind == "if":
+                arms = [("if " + self.cond() + ":",) + self.arm(depth, in_loop)]
+                for _ in range(self.draw(st.integers(0, 2))):
+                    arms.append(("elif " + self.cond() + ":",) + self.arm(depth, in_loop))
+                if self.draw(st.booleans()):
+                    arms.append(("else:",) + self.arm(depth, in_loop))
+                for i, (hdr, body, empty) in enumerate(arms):
+                    if empty and any(not e for _, _, e in arms[i + 1:]):
+                        self.empty_then_live = True
+                    out.append(hdr)
+                    out += ["    " + b for b in body]
+            elif kind == "for":
+                v = f"k{depth}"
+                body, _ = self.arm(depth, True, allow_empty=self.draw(st.booleans()))
+                tail = []
+                if self.draw(st.integers(0, 3)) == 0:
+                    tail = [f"if {v} == 0:", "    " + self.draw(st.sampled_from(["continue", "break"])), self.marker()]
+                out.append(f"for {v} in range({self.draw(st.integers(0, 3))}):")
+                out += ["    " + b for b in body + tail]
+            else:
+                w = f"w{depth}"
+                body, _ = self.arm(depth, True)
+                out += [f"{w} = {self.draw(st.integers(0, 2))}", f"while {w} > 0:", f"    {w} = {w} - 1"] + ["    " + b for b in body]
+        return out
+
+
+def skeleton_case(draw):
+    sk = Skel(draw)
+    reads = ["a0 = analog_read('A0')", "a1 = analog_read('A0')", "a2 = analog_read('A0')"]
+    lines = list(reads)
+    if draw(st.booleans()):
+        body, _ = sk.arm(0, False, allow_empty=False)
+        lines = ["a0 = 0", "a1 = 0", "a2 = 0", "def hk():"] + ["    " + b for b in body] + ["    return 1"] + reads + ["mon.write(hk())"]
+    lines += sk.block(0, False)
+    n = 0
+    if draw(st.booleans()):
+        n = draw(st.integers(1, 3))
+        lines += ["while True:"] + ["    " + b for b in reads + sk.block(1, False) + ["sleep(1)"]]
+    vals = draw(st.lists(st.sampled_from([0, 200, 400, 600, 800, 1023]), min_size=3 * (n + 1), max_size=3 * (n + 1)))
+    return {"skeleton": SK_HEAD + "\n".join(lines) + "\n", "n": n, "tape": {"analog": {"14": vals}, "digital": {}}, "empty_then_live": sk.empty_then_live, "empty": sk.n_empty}
+
+
+def eval_skeleton(case):
+    from vlib import diff
+
+    tape = {k: {int(p): v for p, v in d.items()} for k, d in case["tape"].items()}
+    o = diff.evaluate(case["skeleton"], case["n"], tape, off=frozenset())
+    if o.status == "FAIL":
+        return o.status, [{"bucket": "block-structure:" + o.bucket, "case": {k: case[k] for k in ("skeleton", "n", "tape")},
+                           "expected": "the markers CPython prints, in the same order (every block is where Python puts it, empty arms keep their condition)", "observed": o.detail}]
+    return o.status, []
+
+
 # ------------------------------------------------------------------ shards
 def plan(tier):
     q = tier == "quick"
     units = [(f"layout-{i}", {"what": "layout", "n": 200 if q else 12000}) for i in range(12)]
     units += [(f"account-{i}", {"what": "account", "n": 400 if q else 6000}) for i in range(4)]
+    units += [(f"skeleton-{i}", {"what": "skeleton", "n": 30 if q else 1500}) for i in range(8)]
     return units
 
 
@@ -319,6 +409,22 @@ def run_shard(name, seed, tier, what, n):
         for b, fl in list(last.items()):
             if "variant" in fl["case"]:
                 last[b] = _shrink_layout(fl)
+    elif what == "skeleton":
+        @hseed(seed)
+        @hyp_settings(n, phases=(Phase.generate,))
+        @given(st.data())
+        def prop(data):
+            case = skeleton_case(data.draw)
+            status, fails = eval_skeleton(case)
+            r.count("skeleton:" + status)
+            r.count("skeleton_empty_arms", case["empty"])
+            r.case({k: case[k] for k in ("skeleton", "n")} if len(r.samples) < 1 else {"h": hash(case["skeleton"]) & 0xffffffff, "n": case["n"]},
+                   status == "ok" and case["empty_then_live"])
+            for fl in fails:
+                if fl["bucket"] not in last or len(case["skeleton"]) < len(last[fl["bucket"]]["case"]["skeleton"]):
+                    last[fl["bucket"]] = fl
+
+        prop()
     else:
         @hseed(seed)
         @hyp_settings(n, phases=(Phase.generate,))
@@ -388,6 +494,8 @@ def _shrink_layout(fl):
 
 
 def replay(case):
+    if "skeleton" in case:
+        return eval_skeleton(case)[1]
     if "variant" in case:
         if not same_python(case["base"], case["variant"]):
             return []
